@@ -48,6 +48,13 @@ func buildCorpus(seed uint64) []CorpusItem {
 	for len(items) < n {
 		cfg := genCfg(true)
 		var p *PathSpec
+		if len(items) > 4 && chance(25) {
+			// the same path text as an earlier item with another Config: other function subset,
+			// other behaviour under the same names, other accessor mode, or no Config at all
+			prev := items[rn(len(items))]
+			items = append(items, CorpusItem{Path: prev.Path, Cfg: cfg, Fail: prev.Fail})
+			continue
+		}
 		switch rn(10) {
 		case 0, 1, 2:
 			p = genFailPath()
